@@ -1,16 +1,25 @@
-(* correspondence driver for C14: the regenerated quoting functions on the strings the implementation was given *)
-From Coq Require Import List Bool Arith NArith String Ascii.
+(* correspondence driver for C14: the regenerated quoting functions and value_to_sql on the inputs the implementation was given;
+   the concat_rows label model and the record-map token model (Model/RecMapSql.v) against the text the implementation built *)
+From Coq Require Import List Bool Arith NArith ZArith String Ascii.
 Import ListNotations.
-From DA Require Import Base.PyRT Base.Cases Base.PyStr Gen.G_Quote Gen.G_QuoteMySQL.
+From DA Require Import Base.PyRT Base.Cases Base.PyStr Model.Lex Model.PyVal Gen.G_Quote Gen.G_QuoteMySQL Gen.G_ValueToSql Model.RecMapSql.
 
 Inductive qcase :=
   | QString (q s : string) (observed : string)
   | QIdent (mysql : bool) (q s : string) (observed : option string)
-  | QAnno (s : option string) (observed : option string).
+  | QAnno (s : option string) (observed : option string)
+  | VSql (q : string) (v : pyval) (observed : string)                         (* value_to_sql(v) *)
+  | VLabel (d : dialect) (name : string) (observed : string)                  (* text value_to_sql returned for the concat_rows label *)
+  | VRecMap (d : dialect) (rs : recspec) (to_blocks : bool) (observed : option (list string * list string)).
 Definition qcase_ok (c : qcase) : bool :=
   match c with
   | QString q s o => eqb (quote_string q s) o
   | QIdent my q s o => eqb (if my then mysql_quote_identifier q s else quote_identifier q s) o
   | QAnno s o => eqb (_clean_annotation s) o
+  | VSql q v o => eqb (value_to_sql q v) o
+  | VLabel d n o => eqb (concat_label_sql d n) o
+  | VRecMap d rs tb o =>
+      let p := if tb then emit_r2b rs else emit_b2r rs in
+      eqb (match render_lines d (fst p), render_lines d (snd p) with Some a, Some b => Some (a, b) | _, _ => None end) o
   end.
 Definition check_cases cs : list nat := failing_idx qcase_ok cs.
